@@ -262,6 +262,10 @@ func init() {
 			lx.Op{Kind: "revert", Name: "revert2-force-eff", TxID: 2, Force: true, AtEff: true},
 			lx.Op{Kind: "revert", Name: "revert3", TxID: 3},
 			lx.Op{Kind: "revert", Name: "revert2-dry", TxID: 2, DryRun: true, Force: true},
+			// the request's own metadata uses the reserved key of the revert mark (what a client
+			// re-sending the metadata of a revert transaction does): the mark must still name the
+			// transaction being reverted (seeded change C15c let the request win the merge)
+			lx.Op{Kind: "revert", Name: "revert1-meta-claims-other", TxID: 1, Force: true, Meta: map[string]string{"com.formance.spec/state/reverts": "7", "why": "y"}},
 		), restart: true,
 		sigs: []string{"revert:", "tx:reverted-flag", "tx:postings", "tx:count", "read:", "ref:"},
 		check: func(ctx context.Context, s *lx.StepInfo, rep *lx.Report) {
